@@ -257,6 +257,13 @@ m("c18-revert-nifti-pair-unlink", "C18", "utils/imageio/nifti.py",
                 break""", """            if name.lower().endswith(suffix):
                 break""")
 
+m("c09-revert-bspline-grid_-exception-safe", "C09", "spatial/bspline.py",
+  """            except Exception:
+                # Keep grid and coefficients consistent (cf. DenseVectorFieldTransform.grid_)
+                self._grid = current_grid
+                raise""", """            except Exception:
+                raise""")
+
 
 def run_mutant(spec, runs: int, budget: int):
     mid, prop, rel, old, new = spec
